@@ -282,3 +282,30 @@ def declare_c18(E):
                        " ghost('user_sent_count') == old(ghost('user_sent_count')) + 1 and ghost('user_sent')[0:1] == b'\\x64')",
                },
                returns="none", raises=dict(RA, UnicodeDecodeError="True"), modifies=None)
+
+
+def declare_c10(E):
+    """one iteration of the dispatch loop: a pending re-key request is acted on before the next packet is read"""
+    declare(E)
+    declare_runloop(E)
+    generic_handlers(E)
+    E.inline("paramiko.auth_handler.AuthHandler._handler_table", "paramiko.auth_handler.AuthHandler._server_handler_table",
+             "paramiko.auth_handler.AuthHandler._client_handler_table")
+    E.declare_ghost(kex_sent="int", kex_sent_at_read="int", reads="int")
+    E.contract("paramiko.packet.Packetizer.need_rekey", returns="bool", modifies=[],
+               ensures=["result == self._Packetizer__need_rekey"])
+    E.contract(T + "_send_kex_init", returns="none",
+               ghost={"kex_sent": "ghost('kex_sent') + 1", "kex_sent_at_read": "ghost('reads')"},
+               cases=[dict(name="exchange_started", when="True", post={"self.in_kex": "True"})],
+               raises={"SSHException": "True", "EOFError": "True", "OSError": "True"}, modifies=["self.in_kex"])
+    c = E.contracts["paramiko.packet.Packetizer.read_message"]
+    c["ghost"] = {"reads": "ghost('reads') + 1"}
+    E.contract(RUN_ITER, params={"self": "obj:Transport"},
+               requires={"active": "self.active"},
+               ghosts={"kex_sent": "int", "kex_sent_at_read": "int", "reads": "int"},
+               ensures={
+                   "pending_rekey_request_starts_a_key_exchange_before_the_next_read":
+                       "implies(old(self.packetizer._Packetizer__need_rekey) and not old(self.in_kex),"
+                       " ghost('kex_sent') >= old(ghost('kex_sent')) + 1 and ghost('kex_sent_at_read') == old(ghost('reads')))",
+               },
+               raises={"SSHException": "True", "EOFError": "True", "OSError": "True"})
